@@ -5,7 +5,7 @@ import json, os, glob, shutil
 res_file = "/verif/tools/benign_results.json"
 res = json.load(open(res_file))
 notes = json.load(open("/verif/tools/benign_notes.json"))
-for f in ("/verif/out/ben2_results.json", "/verif/out/ben2b_results.json", "/verif/out/ben2c_results.json", "/verif/out/ben2d_results.json", "/verif/out/ben2e_results.json"):
+for f in ("/verif/out/ben2_results.json", "/verif/out/ben2b_results.json", "/verif/out/ben2c_results.json", "/verif/out/ben2d_results.json", "/verif/out/ben2e_results.json", "/verif/out/ben2f_results.json"):
     if not os.path.exists(f):
         continue
     for name, r in json.load(open(f)).items():
